@@ -38,6 +38,7 @@ type parseResp struct {
 	Result  string              `json:"result"` // ok | panic | error
 	Faulty  bool                `json:"faulty"`
 	Diags   []diagOut           `json:"diags"`
+	Wrapped []diagOut           `json:"wrapped,omitempty"` // the diagnostics carried inside delivered ones (failed generic instantiations), flattened
 	Panic   string              `json:"panic,omitempty"`
 	Err     string              `json:"err,omitempty"`
 	Extra   map[string][]string `json:"extra,omitempty"`
@@ -118,6 +119,21 @@ func doParse(req *parseReq) (resp parseResp) {
 		}
 		resp.Diags = append(resp.Diags, diagOut{int(e.Code), int(e.Level), f,
 			[4]uint{e.Range.Start.Line, e.Range.Start.Column, e.Range.End.Line, e.Range.End.Column}, e.Msg})
+		var flatten func(ws []ddperror.Error)
+		flatten = func(ws []ddperror.Error) {
+			for _, w := range ws {
+				wf := w.File
+				if rel, err := filepath.Rel(dir, wf); err == nil && len(rel) > 0 && rel[0] != '.' {
+					wf = rel
+				} else {
+					wf = filepath.Base(wf)
+				}
+				resp.Wrapped = append(resp.Wrapped, diagOut{int(w.Code), int(w.Level), wf,
+					[4]uint{w.Range.Start.Line, w.Range.Start.Column, w.Range.End.Line, w.Range.End.Column}, w.Msg})
+				flatten(w.WrappedGenericErrors)
+			}
+		}
+		flatten(e.WrappedGenericErrors)
 	}
 	defer func() {
 		if r := recover(); r != nil {
